@@ -164,6 +164,7 @@ func main() {
 	runContent(r)
 	runHistory(r)
 	runManyLabels(r)
+	runLabelShapes(r)
 	runReal(r)
 	runPlugins(r)
 	cliStage(r)
@@ -413,6 +414,53 @@ func runPlugins(r *mon.Run) {
 				if err != nil && dst.Len() != 0 {
 					r.Violate("bytes-on-refusal:plugin:history", fmt.Sprintf("%s: refused after %d bytes", desc, dst.Len()), map[string]any{"case": desc})
 				}
+			}
+		}
+	}
+	// the CONTENT of the labels a plugin declares: they reach the decision
+	// exactly as declared (letter case, punctuation, length), whether the
+	// partner is another plugin or a recipient written in Go
+	pluginLabelTexts := []string{"A", "Postquantum", "postQuantum", "POSTQUANTUM", "a-B", "X25519", "x25519", "a%41", "a+b", "a/b", "a.b", "a_b", "~", "!", "0", "00", "a=", "=a",
+		"Age-Encryption.org/PQ", strings.Repeat("Ab", 50), "ZZ", "zZ", "i", "I", "k", "K"}
+	for li, L := range pluginLabelTexts {
+		variants := map[string]bool{}
+		for _, v := range []string{strings.ToLower(L), strings.ToUpper(L), strings.Title(strings.ToLower(L)), L + "x", L[:len(L)-1], strings.TrimRight(L, "="), strings.ReplaceAll(L, "%41", "A")} {
+			if v != L && v != "" {
+				variants[v] = true
+			}
+		}
+		type pcase struct {
+			other   string
+			viaGo   bool
+			want    bool
+			partner string
+		}
+		cases := []pcase{{L, true, true, "a Go recipient with the same label"}, {L, false, true, "a second plugin with the same label"}}
+		for v := range variants {
+			cases = append(cases, pcase{v, li%2 == 0, false, fmt.Sprintf("a recipient with the label %q", v)})
+			cases = append(cases, pcase{v, li%2 == 1, false, fmt.Sprintf("a recipient with the label %q", v)})
+		}
+		for ci, c := range cases {
+			rs := []age.Recipient{mkPlugin("lc", []string{L}, true)}
+			if c.viaGo {
+				rs = append(rs, mk(labelSpec{labels: []string{c.other}}, 9, false, &n))
+			} else {
+				rs = append(rs, mkPlugin("ld", []string{c.other}, true))
+			}
+			if ci%2 == 1 {
+				rs[0], rs[1] = rs[1], rs[0]
+			}
+			dst := &mon.ObservingWriter{}
+			_, err := age.Encrypt(dst, rs...)
+			r.Eval(1)
+			desc := fmt.Sprintf("plugin declaring the label %q next to %s (via Go: %v)", L, c.partner, c.viaGo)
+			r.Distinct(desc)
+			r.Count("plugin_label_content_cases", 1)
+			if (err == nil) != c.want {
+				r.Violate(fmt.Sprintf("plugin-labels:content:want-success=%v", c.want), fmt.Sprintf("Encrypt(%s) err=%v, set equality of the labels as declared wants success=%v", desc, err, c.want), map[string]any{"case": desc})
+			}
+			if err != nil && dst.Len() != 0 {
+				r.Violate("bytes-on-refusal:plugin:content", fmt.Sprintf("%s: refused after %d bytes", desc, dst.Len()), map[string]any{"case": desc})
 			}
 		}
 	}
